@@ -31,6 +31,8 @@ pub fn header_block(order: &str) -> Vec<u8> {
             'm' => blk.extend(e.field(":method", "GET", Rep::Indexed, false, false)),
             'p' => blk.extend(e.field(":path", "/", Rep::Indexed, false, false)),
             's' => blk.extend(e.field(":scheme", "https", Rep::Indexed, false, false)),
+            // 'x': a regular header in between (pseudo-headers need not come first for the fingerprint)
+            'x' => blk.extend(e.field("accept-encoding", "gzip, deflate", Rep::Indexed, false, false)),
             _ => blk.extend(e.field(":authority", "example.org", Rep::LitIdxIndexedName, false, false)),
         }
     }
@@ -69,7 +71,7 @@ pub fn reference(frames: &[F]) -> Option<String> {
     let w = if wu == 0 { "00".to_string() } else { wu.to_string() };
     let pr: Vec<String> = frames.iter().filter_map(|f| if let F::Prio(sid, ex, dep, wt) = f { Some(format!("{sid}:{}:{}:{}", *ex as u8, dep & 0x7fff_ffff, *wt as u16 + 1)) } else { None }).collect();
     let p = if pr.is_empty() { "0".to_string() } else { pr.join(",") };
-    let ps = frames.iter().find_map(|f| if let F::Headers(sid, o, _) = f { if *sid > 0 { Some(o.chars().map(|c| c.to_string()).collect::<Vec<_>>().join(",")) } else { None } } else { None }).unwrap_or_default();
+    let ps = frames.iter().find_map(|f| if let F::Headers(sid, o, _) = f { if *sid > 0 { Some(o.chars().filter(|c| *c != 'x').map(|c| c.to_string()).collect::<Vec<_>>().join(",")) } else { None } } else { None }).unwrap_or_default();
     Some(format!("{s}|{w}|{p}|{ps}"))
 }
 
@@ -179,6 +181,8 @@ fn orders() -> Vec<String> {
     }
     // orders with fewer pseudo-headers
     v.extend(["mps", "m", "pm", "sam"].iter().map(|s| s.to_string()));
+    // a regular header ('x') in front of, between and behind the pseudo-headers
+    v.extend(["xmpas", "mxpas", "mpxsa", "mpaxs", "mpasx", "xmxpxaxs", "xm", "x"].iter().map(|s| s.to_string()));
     v
 }
 fn framings() -> Vec<Framing> {
@@ -329,7 +333,7 @@ pub fn run(thorough: bool) -> Outcome {
     let _ = thorough;
     Outcome {
         report: total,
-        rule: "frame sequences from descriptions: SETTINGS lists (<=3 parameters over 11 ids x 6 values, 0 and 12 parameters) x connection/stream WINDOW_UPDATE variants x preface; PRIORITY with all 256 weights x exclusive x stream/dependency, 0..3 frames; 28 pseudo-header orders x 14 HEADERS framings (END_STREAM, PADDED 0/1/7/255, PRIORITY, PADDED+PRIORITY with pad length <, >, = weight, CONTINUATION splits) x stream ids; surrounding PING/unknown/DATA frames; incremental extractor on every 2- and 3-partition (and the 1-byte partition) of 5 stream families with and without preface; distinct = distinct fingerprint strings / chunk outcomes".into(),
+        rule: "frame sequences from descriptions: SETTINGS lists (<=3 parameters over 11 ids x 6 values, 0 and 12 parameters) x connection/stream WINDOW_UPDATE variants x preface; PRIORITY with all 256 weights x exclusive x stream/dependency, 0..3 frames; 36 pseudo-header orders (incl. a regular header in front of, between and behind the pseudo-headers) x 14 HEADERS framings (END_STREAM, PADDED 0/1/7/255, PRIORITY, PADDED+PRIORITY with pad length <, >, = weight, CONTINUATION splits) x stream ids; surrounding PING/unknown/DATA frames; incremental extractor on every 2- and 3-partition (and the 1-byte partition) of 5 stream families with and without preface; distinct = distinct fingerprint strings / chunk outcomes".into(),
         exhaustive: true,
         bounds: json!({"settings_lists": sl.len(), "chunk_families": families.len()}),
     }
